@@ -12,14 +12,40 @@ import grammar
 import project_html as ph
 
 
+def _with_snippet(exp):
+    """the expected listing when the name y is a snippet with the two-level definition y1>y2 (C14: what is written on the alias
+    goes to the top-level element of the definition, its children into the deepest one)"""
+    out, shifts = [], []
+    for e in exp:
+        while shifts and shifts[-1] >= e['d']:
+            shifts.pop()
+        d = e['d'] + len(shifts)
+        if e['n'] == 'y':
+            out.append(dict(e, d=d, n='y1'))
+            out.append({'d': d + 1, 'n': 'y2', 'pl': 'none', 'v': ''})
+            shifts.append(e['d'])
+        else:
+            out.append(dict(e, d=d))
+    return out
+
+
 def _chunk(vecs):
     import emmet
     bad = []
+    work = []
     for v in vecs:
+        work.append((v, None))
+        if any(e['n'] == 'y' for e in v['out']) and not (v['truncated'] and v['rev']):
+            # the same abbreviation with y defined as a snippet of two levels: every copy gets its own definition
+            work.append((dict(v, out=_with_snippet(v['out'])), {'y': 'y1>y2'}))
+    for v, snippets in work:
         cfg = {'options': {'output.format': bool(zlib.crc32(v['abbr'].encode()) & 1)}}
         if v['limit']:
             cfg['maxRepeat'] = v['limit']
         case = {'abbr': v['abbr'], 'maxRepeat': v['limit'] or None, 'format': cfg['options']['output.format']}
+        if snippets:
+            cfg['snippets'] = snippets
+            case['snippets'] = snippets
         try:
             with common.Alarm(20):
                 text = emmet.expand(v['abbr'], cfg)
@@ -132,6 +158,8 @@ def replay(case):
     import emmet
     c = case['case']
     cfg = {'options': {'output.format': c.get('format', True)}}
+    if c.get('snippets'):
+        cfg['snippets'] = c['snippets']
     if c.get('maxRepeat'):
         cfg['maxRepeat'] = c['maxRepeat']
     return 'expand(%r, %r) ->\n%s\nexpected %r' % (c['abbr'], cfg, emmet.expand(c['abbr'], cfg), c.get('expected'))
